@@ -9,7 +9,7 @@ not a unit and no factorisation into two non-units).  The searches are proved to
 candidate; for odd p the candidate set excludes `X` itself (finding `C24-next-irreducible-skips-x`).
 Small kernel-evaluated tables compare the test with exhaustive trial division inside the model.
 -/
-import MpycV.Lemmas.GFpXNext
+import MpycV.Lemmas.GFpXTerm
 import MpycV.Lemmas.GFpXBinNext
 import MpycV.Lemmas.GFpXTable
 
@@ -107,6 +107,22 @@ theorem find_irreducible_spec [Fact p.Prime] {d f : ℕ} {c : Poly}
 
 example : findIrreducible 3 2 20 = some [1, 0, 1] ∧ findIrreducible 5 3 100 = some [1, 1, 0, 1] := by
   decide
+
+/-- ★ `find_irreducible(p, d)` has degree exactly `d` (for `d ≥ 1`): its value has `d + 1` coefficients -/
+theorem find_irreducible_degree [Fact p.Prime] {d f : ℕ} {c : Poly} (hd : 1 ≤ d)
+    (h : findIrreducible p d f = some c) : c.length = d + 1 ∧ GFpX.degree c = (d : ℤ) := by
+  have := findIrreducible_degree hd h
+  exact ⟨this, by simp [GFpX.degree, this]⟩
+
+example : findIrreducible 7 2 100 = some [1, 0, 1] := by decide
+
+/-- ★ the unbounded searches (`while True`) terminate: monic irreducible polynomials of every degree exist
+over `ZMod p`, so for every argument some number of loop passes suffices -/
+theorem search_terminates [Fact p.Prime] (a : Poly) (d : ℕ) :
+    (∃ f c, nextIrreducible p f a = some c) ∧ (∃ f c, findIrreducible p d f = some c) :=
+  ⟨nextIrreducible_terminates a, findIrreducible_terminates d⟩
+
+example : nextIrreducible 5 30 [4, 4, 4] = some [1, 1, 0, 1] := by decide
 
 /-- FINDING (key `C24-next-irreducible-skips-x`): for odd p the polynomial `X` — monic, irreducible,
 integer value p — is never returned, because the loop skips every multiple of p.  So
